@@ -72,6 +72,7 @@ class Checker:
 
     # ------------------------------------------------------------------
     def run(self, ops):
+        last = ops[-1] if ops else None
         for op in ops:
             self.stats['ops'] += 1
             self.stats['op.' + OPS[op.op]] += 1
@@ -84,7 +85,9 @@ class Checker:
             if op.op == OP['DESTROY']:
                 self.on_destroy(op); continue
             if op.act is None:
-                self.v('C00', 'harness|op-without-snapshot', op); continue
+                # the last operation of a log may be cut short when the process died (sanitizer report, crash): judged through the exit status
+                if op is not last: self.v('C00', 'harness|op-without-snapshot', op)
+                continue
             if op.op == OP['COPY']:
                 self.on_copy(op); continue
             self.lockstep(op)
